@@ -23,6 +23,7 @@ from mitxgraders.helpers.calc import exceptions as CE
 from mitxgraders.exceptions import MITxError
 from mitxgraders import FormulaGrader, DependentSampler
 
+EXTRA_HASH_SEEDS = {'thorough': ('1',)}           # name sets: their iteration order feeds messages and sampling order
 PROPERTY = 'C10'
 RULE = ('ENUM: every concatenation of tokens up to a length bound over alphabets rich in confusable names; '
         'non-trivial = string in the language with at least one name or suffix. BFS: all call histories over '
